@@ -555,7 +555,11 @@ func (rt resultGrouped) Extract(cw containerWriter, decorated bool, v reflect.Va
 	}
 
 	if decorated {
-		cw.submitDecoratedGroupedValue(rt.Group, rt.Type, v)
+		// A decorated group is kept under the element type, like the
+		// providers and decorators of the group: the slice type a
+		// decorator returns and the slice types its consumers ask for
+		// may differ in name only.
+		cw.submitDecoratedGroupedValue(rt.Group, rt.Type.Elem(), v)
 		return
 	}
 	for i := 0; i < v.Len(); i++ {
